@@ -143,13 +143,13 @@ type c14Model struct {
 	res, ret int64
 	clock    int64
 	started  bool
-	accepted []h.Point        // stored points, in processing order
-	rejected []h.Point        // points that were too old when processed
-	periods  map[int64]bool   // period ends that have stored data
-	expFlush map[int64]int    // period end -> data-carrying flushes seen since it expired
-	absent   map[int64]bool   // period ends that must be absent from disk and memory from now on
-	dirty    bool             // a point was stored since the last flush
-	flushes  int              // data-carrying flushes
+	accepted []h.Point      // stored points, in processing order
+	rejected []h.Point      // points that were too old when processed
+	periods  map[int64]bool // period ends that have stored data
+	expFlush map[int64]int  // period end -> data-carrying flushes seen since it expired
+	absent   map[int64]bool // period ends that must be absent from disk and memory from now on
+	dirty    bool           // a point was stored since the last flush
+	flushes  int            // data-carrying flushes
 	labels   map[string]bool
 }
 
